@@ -657,11 +657,14 @@ Subtree ts_subtree_edit(Subtree self, const TSInputEdit *input_edit, SubtreePool
     Edit edit;
   } EditEntry;
 
-  // Whether text that follows the edit on its last line has moved to another column. This is decided
-  // from the edit's absolute positions: inside the loop the positions are relative to a node, where a
-  // column on the node's first row is counted from the node's start but a column on a later row is not,
-  // so two relative columns on different rows cannot be compared.
-  bool column_shifted = input_edit->new_end_point.column != input_edit->old_end_point.column;
+  // Whether text that follows the edit on its last line may have moved to another column. The edit's
+  // positions count bytes while the column that a scanner sees (TSLexer.get_column) counts characters,
+  // so equal byte columns of the old and the new end do not show that it has not: replacing "ab" by a
+  // two-byte character keeps the bytes and moves the rest of the line by one column. Only an edit that
+  // changes no text leaves the columns alone.
+  bool column_shifted =
+    input_edit->old_end_byte != input_edit->start_byte ||
+    input_edit->new_end_byte != input_edit->start_byte;
 
   Array(EditEntry) stack = array_new();
   array_push(&stack, ((EditEntry) {
